@@ -101,6 +101,25 @@ def r2_abs_tol(y, yh):
     return 1e-12 * (1.0 + q) * (len(y) if len(y) > 2 else 1)
 
 
+def rmsle_abs_tol(y, yh):
+    """log(v+1) is only defined to within the rounding of v+1: an absolute error of about one ulp of 1 per logarithm
+    (plus the relative rounding of the logarithm itself), whatever way the formula is evaluated.  The root mean
+    square of per-element errors is at most their maximum."""
+    try:
+        L = max([abs(math.log(v + 1.0)) for v in list(y) + list(yh) if v + 1.0 > 0] or [0.0])
+    except (ValueError, OverflowError):
+        L = 0.0
+    return 8 * 2.220446049250313e-16 * (1.0 + L)
+
+
+def abs_tol(name, y, yh):
+    if name.startswith('r2'):
+        return r2_abs_tol(y, yh)
+    if name == 'rmsle':
+        return rmsle_abs_tol(y, yh)
+    return 0.0
+
+
 def check_pair(y, yh, names=KERNELS):
     m = len(y)
     ya, yha = np.array(y, dtype=float), np.array(yh, dtype=float)
@@ -121,7 +140,7 @@ def check_pair(y, yh, names=KERNELS):
             exp = ref_value(name, y, yh)
         except (OverflowError, ZeroDivisionError, ValueError):
             continue
-        ab = r2_abs_tol(y, yh) if name.startswith('r2') else 0.0
+        ab = abs_tol(name, y, yh)
         if not tol_ok(got, exp, 1e-12, ab):
             out.append(Failure(f, 'differs-from-definition' + ('-adjusted' if name == 'r2adj' else ''), key, case, 'expected %r observed %r' % (exp, got), (m, 0)))
             continue
@@ -207,7 +226,7 @@ def check_wrappers(xs, ys):
                 exp = ref_value(mname, yl, yh)
             except (OverflowError, ZeroDivisionError, ValueError):
                 continue
-            ab = r2_abs_tol(yl, yh) if mname == 'r2' else 0.0
+            ab = abs_tol(mname, yl, yh)
             if not tol_ok(got, exp, 1e-12, ab):
                 out.append(Failure('linear_fit.' + wname, 'differs-from-metric-of-line', key, case, 'expected %r observed %r' % (exp, got), (n, 0)))
             elif not tol_ok(gotp, got, 1e-15, 0.0):
